@@ -49,7 +49,7 @@ def level_of(c):
     return l if l in LEVELS and pb == params_bytes(l) else None
 
 def _no(c):
-    l = int.from_bytes(bytes(c['params'])[:8], 'little')
+    l = int.from_bytes(bytes(c['params'] or b'')[:8], 'little')
     return l // 4 if l in LEVELS else 64
 
 def q_of(l): return R.params(l)['q']
@@ -245,9 +245,9 @@ _reg('bignDH', [('out', 'key', lambda c: c['key_len']), P, ('in', 'privkey'), ('
 _reg('bignSign', [('out', 'sig', _sz(3, 2)), P] + OID + [('in', 'hash'), ('in', 'privkey'), ('gen', 'rng')], _ref(_r_sign), secrets=('privkey',))
 _reg('bignSign2', [('out', 'sig', _sz(3, 2)), P] + OID + [('in', 'hash'), ('in', 'privkey'), ('in', 't'), ('len', 't')], _ref(_r_sign2), secrets=('privkey',))
 _reg('bignVerify', [P] + OID + [('in', 'hash'), ('in', 'sig'), ('in', 'pubkey')], _ref(_r_verify))
-_reg('bignKeyWrap', [('out', 'token', lambda c: _no(c) + 16 + len(c['key'])), P, ('in', 'key'), ('len', 'key'), ('in', 'header'), ('in', 'pubkey'), ('gen', 'rng')],
+_reg('bignKeyWrap', [('out', 'token', lambda c: _no(c) + 16 + c.get('key_len', len(c['key'] or b''))), P, ('in', 'key'), ('len', 'key'), ('in', 'header'), ('in', 'pubkey'), ('gen', 'rng')],
      _ref(_r_key_wrap), secrets=('key',))
-_reg('bignKeyUnwrap', [('out', 'key', lambda c: max(len(c['token']) - 16 - _no(c), 0)), P, ('in', 'token'), ('len', 'token'), ('in', 'header'), ('in', 'privkey')],
+_reg('bignKeyUnwrap', [('out', 'key', lambda c: max(c.get('token_len', len(c['token'] or b'')) - 16 - _no(c), 0)), P, ('in', 'token'), ('len', 'token'), ('in', 'header'), ('in', 'privkey')],
      _ref(_r_key_unwrap), secrets=('privkey',))
 _reg('bignIdExtract', [('out', 'id_privkey', _sz(1)), ('out', 'id_pubkey', _sz(2)), P] + OID + [('in', 'id_hash'), ('in', 'sig'), ('in', 'pubkey')], _ref(_r_id_extract), secrets=('id_privkey',))
 _reg('bignIdSign', [('out', 'id_sig', _sz(3, 2)), P] + OID + [('in', 'id_hash'), ('in', 'hash'), ('in', 'id_privkey'), ('gen', 'rng')], _ref(_r_id_sign),
@@ -730,6 +730,8 @@ def sweep_cases(tier):
         for fn in ('bignSign', 'bignSign2', 'bignVerify', 'bignIdExtract', 'bignIdSign', 'bignIdSign2', 'bignIdVerify'):
             for n, v in (bad_oids if fn in ('bignSign', 'bignVerify') else bad_oids[:1] + bad_oids[3:6]):
                 X(fn, base[fn], E['BAD_OID'], oid_der=v)
+        for fn in ('bignSign', 'bignSign2', 'bignVerify', 'bignIdExtract', 'bignIdSign', 'bignIdSign2', 'bignIdVerify'):
+            X(fn, base[fn], E['BAD_INPUT'], oid_der=None, oid_der_len=len(o))      # NULL identifier of non-zero length: an invalid input pointer
         # public keys with a coordinate >= p -> ERR_BAD_PUBKEY where bign.h asks for a correct public key
         p = p_of(l)
         for n, Qm in (('x=p', enc(l, p) + Q[no:]), ('y=p', Q[:no] + enc(l, p)), ('max', b'\xff' * (2 * no))):
@@ -747,7 +749,6 @@ def sweep_cases(tier):
                 X(fn, base[fn], E['BAD_INPUT'], **{f: None})
         X('bignKeyWrap', base['bignKeyWrap'], E['BAD_INPUT'], key=None, key_len=32)
         X('bignKeyUnwrap', base['bignKeyUnwrap'], E['BAD_INPUT'], token=None, token_len=len(tok))
-        X('bignSign2', base['bignSign2'], E['BAD_INPUT'], t=None, t_len=5)
     for s_ in OID_STRINGS_BAD:
         out.append(('bignOidToDER', dict(oid=s_)))
     return out
